@@ -8,5 +8,11 @@ CLAIMED = {
   "note": "Trusted: Coq kernel; CPython slice.indices/range/list-index semantics as transcribed in Array/Slice.v (validated against the interpreter each run); extraction (ExtrOcamlBasic) + driver.ml; the correspondence harness. The Python source is modelled by hand, not verified directly.",
   "technique": "Coq proof over hand-written Gallina model + extracted-model/implementation correspondence",
  },
+ "C14": {
+  "text": "Coq theorems, for every height/width >= 0 and every coordinate, about a model of BoolGridFrame/BoolInnerGridFrame and graph._from_grid_frame: frame[Y,X] is the variable on the segment with that doubled midpoint and every other position raises IndexError; cell_neighbors / vertex_neighbors return exactly the segments bordering the cell / ending at the point, each once; all_edges and iteration enumerate every segment once; _from_grid_frame returns in lock-step each segment's variable and the edge joining its two ends in the (h+1)(w+1)-vertex lattice graph (also for inner.dual(), the cell-adjacency graph with border variables); dual moves each variable to the border between the cells corresponding to its ends, dual of dual is the identity; the constructor puts distinct fresh variables on distinct segments. Tied to grid_frame.py/graph.py by exhaustive correspondence (h,w <= 4, all coordinates in [-3,2h+3]^2, both classes, all accessors and call forms; thorough h,w <= 6) plus an independent geometric oracle run on the real accessors.",
+  "design_ref": "DESIGN.md 4 C14",
+  "note": "Full: all design theorems proved unbounded (14/14 closed under the global context). Trusted: the reading 'horizontal[y][x] lies on (y,x)-(y,x+1), vertical[y][x] on (y,x)-(y+1,x)' and row-major vertex numbering (frame_of, point_id); the Array2D index model of Array/Slice.v (tied by C13); Coq kernel; extraction + driver.ml; the harness. Python is modelled by hand; coordinates are ints only.",
+  "technique": "Coq proof over hand-written Gallina model with layout-independent lattice specification + exhaustive extracted-model/implementation correspondence + geometric-oracle search",
+ },
 }
 NOT_CLAIMED = {}
